@@ -109,8 +109,10 @@ Qed.
    ============================================================================================== *)
 Section Frame.
   Variable h0 : heap.
+  Variable fx : bool.          (* false: the pinned tree; true: the tree with both C08 patches *)
   Let n := length h0.
-  Hypothesis h0_flat : heap_flat h0 = true.
+  (* only the pinned tree needs the caller's objects to be free of containers below tuples *)
+  Hypothesis h0_flat : fx = false -> heap_flat h0 = true.
 
   Definition closed (h : heap) : Prop :=
     forall l c, n <= l -> nth_error h l = Some c -> forallb (refs_ge n) (cell_vals c) = true.
@@ -129,14 +131,18 @@ Section Frame.
   Qed.
 
   (* a value the callee may meet: wholly fresh, or a caller's value with nothing mutable below a tuple *)
-  Definition okv (v : val) : Prop := refs_ge n v = true \/ flat_old n v = true.
+  Definition okv (v : val) : Prop := refs_ge n v = true \/ flat_old n v = true \/ fx = true.
+  Lemma okv_fixed v : fx = true -> okv v.
+  Proof. intro E. right. right. exact E. Qed.
+  Lemma okv_flat v : flat_old n v = true -> okv v.
+  Proof. intro E. right. left. exact E. Qed.
 
   Lemma okv_fresh v : refs_ge n v = true -> okv v.
   Proof. left; auto. Qed.
 
-  Lemma okv_refs_ge_nonref v : okv v -> (forall l, v <> VRef l) -> refs_ge n v = true.
+  Lemma okv_refs_ge_nonref v : fx = false -> okv v -> (forall l, v <> VRef l) -> refs_ge n v = true.
   Proof.
-    intros [H|H] Hn; auto. destruct v; simpl in *; auto.
+    intros Efx [H|[H|H]] Hn; auto; [|congruence]. destruct v; simpl in *; auto.
     - rewrite forallb_forall in *. intros x Hx. apply ref_free_refs_ge. auto.
     - exfalso. eapply Hn. reflexivity.
   Qed.
@@ -181,13 +187,16 @@ Section Frame.
   Proof.
     intros Hv h Hi. unfold hread. destruct v; auto.
     destruct (nth_error h l) as [c|] eqn:E; auto. split; auto.
-    destruct Hv as [Hv|Hv]; simpl in Hv.
+    destruct (Bool.bool_dec fx true) as [Efx|Efx].
+    { apply Forall_forall. intros x _. apply okv_fixed. exact Efx. }
+    apply Bool.not_true_is_false in Efx. pose proof (h0_flat Efx) as Hflat.
+    destruct Hv as [Hv|[Hv|Hv]]; simpl in Hv; [| |congruence].
     - apply Nat.leb_le in Hv. destruct Hi as [_ [_ Hcl]]. specialize (Hcl l c Hv E).
       rewrite forallb_forall in Hcl. apply Forall_forall. intros x Hx. left. auto.
     - apply Nat.ltb_lt in Hv. rewrite (inv_old h l Hi Hv) in E.
-      unfold heap_flat in h0_flat. rewrite forallb_forall in h0_flat.
-      specialize (h0_flat c (nth_error_In _ _ E)). rewrite forallb_forall in h0_flat.
-      apply Forall_forall. intros x Hx. right. apply h0_flat. auto.
+      unfold heap_flat in Hflat. rewrite forallb_forall in Hflat.
+      specialize (Hflat c (nth_error_In _ _ E)). rewrite forallb_forall in Hflat.
+      apply Forall_forall. intros x Hx. apply okv_flat. apply Hflat. auto.
   Qed.
 
   Lemma hsafe_read_fresh v : refs_ge n v = true -> hsafe (hread v) (fun c => forallb (refs_ge n) (cell_vals c) = true).
@@ -234,13 +243,23 @@ Section Frame.
   Proof. intro H. apply forallb_forall. rewrite Forall_forall in H. auto. Qed.
 
   (* ---- recreate_branches: whatever it is given, the copy lives in the fresh region *)
-  Lemma clone_safe fuel : forall v, okv v -> hsafe (clone fuel v) (fun r => refs_ge n r = true).
+  Lemma clone_safe fuel : forall v, okv v -> hsafe (clone fx fuel v) (fun r => refs_ge n r = true).
   Proof.
     induction fuel as [|f IH]; intros v Hv; simpl; [apply hsafe_fuel|].
-    destruct v; try (apply hsafe_ret; apply okv_refs_ge_nonref; [exact Hv | congruence]).
+    destruct v; try (apply hsafe_ret; reflexivity).
+    { (* a tuple: rebuilt (fixed tree) or returned as it is (pinned tree, where it holds no container) *)
+      destruct (Bool.bool_dec fx true) as [Efx|Efx].
+      - assert (Hxs : Forall okv xs) by (apply Forall_forall; intros x _; apply okv_fixed; exact Efx).
+        pose proof (hsafe_hmap (clone fx f) okv (fun r => refs_ge n r = true) xs IH Hxs) as Hm.
+        rewrite Efx in *.
+        eapply hsafe_bind; [exact Hm|]. intros ys Hys. apply hsafe_ret. simpl.
+        apply forallb_forall. rewrite Forall_forall in Hys. exact Hys.
+      - apply Bool.not_true_is_false in Efx.
+        pose proof (okv_refs_ge_nonref (VTup xs) Efx Hv ltac:(congruence)) as Hr.
+        rewrite Efx. apply hsafe_ret. exact Hr. }
     eapply hsafe_bind; [apply hsafe_read; exact Hv|]. intros c Hc.
     destruct c as [xs|kvs|kvs]; simpl in Hc.
-    - eapply hsafe_bind; [apply (hsafe_hmap (clone f) okv (fun r => refs_ge n r = true)); auto|].
+    - eapply hsafe_bind; [apply (hsafe_hmap (clone fx f) okv (fun r => refs_ge n r = true)); auto|].
       intros ys Hys. apply hsafe_alloc. simpl. apply Forall_refs_forallb; auto.
     - eapply hsafe_bind.
       + apply (hsafe_hmap _ (fun kv => okv (snd kv)) (fun kv => refs_ge n (snd kv) = true)).
@@ -363,25 +382,25 @@ Section Frame.
   Definition hdl (c : val) : Prop :=
     refs_ge n c = true \/ exists l, c = VRef l /\ l < n /\ nth_error h0 l = Some (CNs []).
   Lemma hdl_okv c : hdl c -> okv c.
-  Proof. intros [H|[l [-> [Hl _]]]]; [left; auto | right; simpl; apply Nat.ltb_lt; auto]. Qed.
+  Proof. intros [H|[l [-> [Hl _]]]]; [left; auto | apply okv_flat; simpl; apply Nat.ltb_lt; auto]. Qed.
 
   Lemma hsafe_and {A} (c : H A) (P Q : A -> Prop) : hsafe c P -> hsafe c Q -> hsafe c (fun a => P a /\ Q a).
   Proof. intros HP HQ h Hi. specialize (HP h Hi). specialize (HQ h Hi). destruct (c h); intuition. Qed.
-  Lemma hsafe_read_which v : hsafe (hread v) (fun c => forall l, v = VRef l -> l < n -> nth_error h0 l = Some c).
+  Lemma hsafe_read_which v : hsafe (hread v) (fun c => exists l, v = VRef l /\ (l < n -> nth_error h0 l = Some c)).
   Proof.
     intros h Hi. unfold hread. destruct v; auto. destruct (nth_error h l) as [c|] eqn:E; auto. split; auto.
-    intros l' E' Hl. inversion E'; subst. rewrite <- E. symmetry. apply inv_old; auto.
+    exists l. split; [reflexivity|]. intros Hl. rewrite <- E. symmetry. apply inv_old; auto.
   Qed.
 
-  Lemma strip_meta_safe v : okv v -> hsafe (strip_meta v) hdl.
+  Lemma strip_meta_safe v : okv v -> hsafe (strip_meta fx v) hdl.
   Proof.
-    intro Hv. unfold strip_meta. eapply hsafe_bind; [apply hsafe_read_which|]. intros c Hc.
-    assert (Hcl : hsafe (clone FUEL v) hdl).
+    intro Hv. unfold strip_meta. eapply hsafe_bind; [apply hsafe_read_which|]. intros c [l [-> Hc]].
+    assert (Hcl : hsafe (clone fx FUEL (VRef l)) hdl).
     { eapply hsafe_weaken; [apply clone_safe; exact Hv|]. intros a Ha. left. exact Ha. }
     destruct c as [xs|kvs|kvs]; auto. destruct kvs; auto.
-    apply hsafe_ret. destruct v; try (left; apply okv_refs_ge_nonref; [exact Hv|congruence]).
-    destruct Hv as [Hv|Hv]; [left; exact Hv|]. right. simpl in Hv. apply Nat.ltb_lt in Hv.
-    exists l. split; [reflexivity|]. split; [exact Hv|]. apply Hc; auto.
+    apply hsafe_ret. destruct (Nat.ltb_spec l n) as [Hl|Hl].
+    - right. exists l. split; [reflexivity|]. split; [exact Hl|]. apply Hc; exact Hl.
+    - left. simpl. apply Nat.leb_le. exact Hl.
   Qed.
 
   Lemma ns_items_hdl c : hdl c ->
@@ -457,21 +476,31 @@ Section Frame.
     apply safe_lift, ns_set_safe; auto.
   Qed.
 
-  Lemma get_defaults_safe p : parser_flat n p = true -> safe (get_defaults p) fresh.
+  (* the declared defaults are values the callee may meet *)
+  Definition okp (p : parser) : Prop := Forall (fun d => okv (d_dflt d)) p.
+  Lemma okp_flat p : parser_flat n p = true -> okp p.
+  Proof.
+    intro Hp. unfold parser_flat in Hp. rewrite forallb_forall in Hp. apply Forall_forall. intros d Hd.
+    apply okv_flat. auto.
+  Qed.
+  Lemma okp_fixed p : fx = true -> okp p.
+  Proof. intro E. apply Forall_forall. intros d _. apply okv_fixed. exact E. Qed.
+
+  Lemma get_defaults_safe p : okp p -> safe (get_defaults fx p) fresh.
   Proof.
     intro Hp. unfold get_defaults.
     eapply safe_bind.
     - apply safe_lift.
       apply (hsafe_hmap _ (fun d => okv (d_dflt d)) (fun kv : str * val => refs_ge n (snd kv) = true)).
       + intros d Hd. eapply hsafe_bind; [apply clone_safe; exact Hd|]. intros y Hy. apply hsafe_ret. exact Hy.
-      + unfold parser_flat in Hp. rewrite forallb_forall in Hp. apply Forall_forall. intros d Hd. right. auto.
+      + exact Hp.
     - intros kvs Hk. eapply safe_bind.
       + apply safe_lift, hsafe_alloc. simpl. apply Forall_refs_forallb. rewrite Forall_map. exact Hk.
       + intros cfg Hcfg. eapply safe_bind; [apply safe_bracket, apply_actions_safe; exact Hcfg|].
         intros _ _. apply safe_ret. exact Hcfg.
   Qed.
 
-  Lemma merge_safe a b : okv a -> okv b -> safe (merge_config a b) fresh.
+  Lemma merge_safe a b : okv a -> okv b -> safe (merge_config fx a b) fresh.
   Proof.
     intros Ha Hb. unfold merge_config.
     eapply safe_bind; [apply safe_lift, clone_safe; exact Ha|]. intros f Hf.
@@ -485,7 +514,7 @@ Section Frame.
     - intros _ _. apply safe_ret. exact Ht.
   Qed.
 
-  Lemma validate_safe p cfg : okv cfg -> safe (validate p cfg) any.
+  Lemma validate_safe p cfg : okv cfg -> safe (validate fx p cfg) any.
   Proof.
     intro Hc. unfold validate.
     eapply safe_bind; [apply safe_lift, clone_safe; exact Hc|]. intros c Hc'.
@@ -497,7 +526,7 @@ Section Frame.
       (eapply safe_bind; [apply check_value_key_safe; exact Hkv | intros _ _; apply safe_ret; exact I]).
   Qed.
 
-  Lemma parse_common_safe p cfg : refs_ge n cfg = true -> safe (parse_common p cfg) fresh.
+  Lemma parse_common_safe p cfg : refs_ge n cfg = true -> safe (parse_common fx p cfg) fresh.
   Proof.
     intro Hc. unfold parse_common.
     eapply safe_bind; [apply safe_bracket, safe_bracket, apply_actions_safe; exact Hc|]. intros _ _.
@@ -505,26 +534,60 @@ Section Frame.
     apply safe_ret. exact Hc.
   Qed.
 
-  Lemma parse_object_safe p a :
-    parser_flat n p = true -> parse_object_arg_ok h0 a = true -> safe (parse_object p a) fresh.
+  (* what parse_object does once it holds the namespace `a` that _apply_actions works on *)
+  Lemma parse_object_tail_safe p cfg a :
+    refs_ge n cfg = true -> refs_ge n a = true -> safe (parse_object_tail fx p cfg a) fresh.
   Proof.
-    intros Hp Ha. unfold parse_object_arg_ok in Ha. destruct a; try discriminate.
+    intros Hcfg Ha'. unfold parse_object_tail.
+    eapply safe_bind; [apply safe_lift, clone_safe; left; exact Hcfg|]. intros _ _.
+    eapply safe_bind; [apply apply_actions_safe; exact Ha'|]. intros _ _.
+    eapply safe_bind; [apply merge_safe; left; auto|]. intros m Hm.
+    apply parse_common_safe. exact Hm.
+  Qed.
+
+  (* the object handed to _apply_actions: a copy (fixed tree), or the caller's own object (pinned tree) *)
+  Lemma parse_object_arg_safe a :
+    safe (if fx then lift (clone fx FUEL a) else ret a) (fun r => (fx = true /\ refs_ge n r = true) \/ (fx = false /\ r = a)).
+  Proof.
+    pose proof (clone_safe FUEL a) as Hc. destruct (Bool.bool_dec fx true) as [Efx|Efx].
+    - specialize (Hc (okv_fixed a Efx)). rewrite Efx in *. apply safe_lift.
+      eapply hsafe_weaken; [exact Hc|]. intros r Hr. left. auto.
+    - apply Bool.not_true_is_false in Efx. rewrite Efx. apply safe_ret. right. auto.
+  Qed.
+
+  Lemma ns_of_arg_fresh_safe arg : refs_ge n arg = true -> safe (ns_of_arg arg) fresh.
+  Proof.
+    intro Harg. unfold ns_of_arg.
+    eapply safe_bind; [apply safe_lift, hsafe_read_fresh; exact Harg|]. intros c Hc.
+    destruct c as [xs|kvs|kvs].
+    - apply safe_fail.
+    - apply safe_lift, hsafe_alloc. exact Hc.
+    - apply safe_ret. exact Harg.
+  Qed.
+  Lemma ns_of_arg_guard_safe a : parse_object_arg_ok h0 a = true -> safe (ns_of_arg a) fresh.
+  Proof.
+    intro Ha. unfold parse_object_arg_ok in Ha. destruct a; try discriminate.
     destruct (nth_error h0 l) as [c0|] eqn:E0; try discriminate.
     destruct c0 as [|kvs0|]; try discriminate.
     assert (Hl : l < n). { unfold n. apply nth_error_Some. congruence. }
-    unfold parse_object.
-    eapply safe_bind; [apply get_defaults_safe; exact Hp|]. intros cfg Hcfg.
-    eapply safe_bind; [apply apply_actions_safe; exact Hcfg|]. intros _ _.
+    unfold ns_of_arg.
     eapply safe_bind; [apply safe_lift, hsafe_read_old; exact Hl|]. intros c Hc.
     rewrite E0 in Hc. inversion Hc; subst c.
-    eapply safe_bind.
-    - apply safe_lift, hsafe_alloc. simpl. rewrite forallb_forall in *. intros x Hx.
-      apply in_map_iff in Hx. destruct Hx as [kv [<- Hkv]]. apply ref_free_refs_ge. apply (Ha kv Hkv).
-    - intros a' Ha'.
-      eapply safe_bind; [apply safe_lift, clone_safe; left; exact Hcfg|]. intros _ _.
-      eapply safe_bind; [apply apply_actions_safe; exact Ha'|]. intros _ _.
-      eapply safe_bind; [apply merge_safe; left; auto|]. intros m Hm.
-      apply parse_common_safe. exact Hm.
+    apply safe_lift, hsafe_alloc. simpl. rewrite forallb_forall in *. intros x Hx.
+    apply in_map_iff in Hx. destruct Hx as [kv [<- Hkv]]. apply ref_free_refs_ge. apply (Ha kv Hkv).
+  Qed.
+
+  Lemma parse_object_safe p a :
+    okp p -> (fx = false -> parse_object_arg_ok h0 a = true) -> safe (parse_object fx p a) fresh.
+  Proof.
+    intros Hp Ha. unfold parse_object.
+    eapply safe_bind; [apply get_defaults_safe; exact Hp|]. intros cfg Hcfg.
+    eapply safe_bind; [apply apply_actions_safe; exact Hcfg|]. intros _ _.
+    eapply safe_bind; [apply parse_object_arg_safe|]. intros arg [[Efx Harg]|[Efx ->]].
+    - eapply safe_bind; [apply ns_of_arg_fresh_safe; exact Harg|].
+      intros a' Ha'. apply parse_object_tail_safe; assumption.
+    - eapply safe_bind; [apply ns_of_arg_guard_safe; apply Ha; exact Efx|].
+      intros a' Ha'. apply parse_object_tail_safe; assumption.
   Qed.
 
   Lemma shift_cell_fresh k c : n <= k -> forallb (refs_ge n) (cell_vals (shift_cell k c)) = true.
@@ -545,7 +608,7 @@ Section Frame.
     - apply refs_ge_shift. exact Hn.
   Qed.
 
-  Lemma parse_string_safe p cells root : parser_flat n p = true -> safe (parse_string p cells root) fresh.
+  Lemma parse_string_safe p cells root : okp p -> safe (parse_string fx p cells root) fresh.
   Proof.
     intro Hp. unfold parse_string.
     eapply safe_bind.
@@ -580,7 +643,7 @@ Section Frame.
     destruct x; try exact Hgen. apply safe_lift, ns_del_safe. exact Hc'.
   Qed.
 
-  Lemma dump_safe p sv cfg : okv cfg -> safe (dump p sv cfg) any.
+  Lemma dump_safe p sv cfg : okv cfg -> safe (dump fx p sv cfg) any.
   Proof.
     intro Hc. unfold dump.
     eapply safe_bind; [apply safe_lift, strip_meta_safe; exact Hc|]. intros c Hh.
@@ -594,7 +657,7 @@ Section Frame.
     - intros _ _. apply safe_bracket, safe_ret. exact I.
   Qed.
 
-  Lemma save_safe p ex cfg : okv cfg -> safe (save p ex cfg) any.
+  Lemma save_safe p ex cfg : okv cfg -> safe (save fx p ex cfg) any.
   Proof.
     intro Hc. unfold save. destruct ex; [apply safe_fail|].
     eapply safe_bind; [apply safe_lift, clone_safe; exact Hc|]. intros c Hc'.
@@ -606,7 +669,7 @@ Section Frame.
       + intros _ _. apply dump_safe. left. exact Hc'.
   Qed.
 
-  Lemma strip_unknown_safe p cfg : okv cfg -> safe (strip_unknown p cfg) fresh.
+  Lemma strip_unknown_safe p cfg : okv cfg -> safe (strip_unknown fx p cfg) fresh.
   Proof.
     intro Hc. unfold strip_unknown.
     eapply safe_bind; [apply safe_lift, clone_safe; exact Hc|]. intros c Hc'.
@@ -617,7 +680,7 @@ Section Frame.
     - intros _ _. apply safe_ret. exact Hc'.
   Qed.
 
-  Lemma instantiate_safe p cfg : okv cfg -> safe (instantiate p cfg) hdl.
+  Lemma instantiate_safe p cfg : okv cfg -> safe (instantiate fx p cfg) hdl.
   Proof.
     intro Hc. unfold instantiate.
     eapply safe_bind; [apply safe_lift, strip_meta_safe; exact Hc|]. intros c Hh.
@@ -634,36 +697,53 @@ Section Frame.
     - intros _ _. apply safe_ret. exact Hh.
   Qed.
 
-  Lemma run_op_safe p o : guard p h0 o = true -> safe (run_op p o) any.
+  Lemma guard_parts p o : guard p h0 o = true ->
+    forallb (flat_old n) (op_args o) = true /\ parser_flat n p = true
+    /\ (forall a, o = OParseObject a -> parse_object_arg_ok h0 a = true).
   Proof.
     unfold guard, guard_class. fold n.
     destruct (forallb (flat_old n) (op_args o) && parser_flat n p) eqn:E; simpl; [|discriminate].
-    apply andb_true_iff in E. destruct E as [Hargs Hp].
+    apply andb_true_iff in E. destruct E as [Hargs Hp]. intro G. split; [exact Hargs|]. split; [exact Hp|].
+    intros a ->. destruct (parse_object_arg_ok h0 a); [reflexivity | discriminate].
+  Qed.
+
+  (* one statement for both trees: the pinned tree under the guard, the fixed tree without *)
+  Lemma run_op_safe p o : (fx = false -> guard p h0 o = true) -> safe (run_op_gen fx p o) any.
+  Proof.
     intro G.
+    assert (Hargs : Forall okv (op_args o)).
+    { apply Forall_forall. intros a Ha. destruct (Bool.bool_dec fx true) as [Efx|Efx]; [apply okv_fixed; exact Efx|].
+      apply Bool.not_true_is_false in Efx. destruct (guard_parts p o (G Efx)) as [H _].
+      rewrite forallb_forall in H. apply okv_flat. auto. }
+    assert (Hp : okp p).
+    { destruct (Bool.bool_dec fx true) as [Efx|Efx]; [apply okp_fixed; exact Efx|].
+      apply Bool.not_true_is_false in Efx. destruct (guard_parts p o (G Efx)) as [_ [H _]]. apply okp_flat. exact H. }
+    assert (Hpo : forall a, o = OParseObject a -> fx = false -> parse_object_arg_ok h0 a = true).
+    { intros a -> Efx. destruct (guard_parts _ _ (G Efx)) as [_ [_ H]]. apply H. reflexivity. }
     destruct o; simpl in Hargs; simpl;
-      repeat match type of Hargs with (_ && _) = true => apply andb_true_iff in Hargs; destruct Hargs as [? Hargs] end.
+      repeat match type of Hargs with Forall _ (_ :: _) => inversion_clear Hargs as [|? ? ? Hargs'];
+                                                           try rename Hargs' into Hargs end.
     - eapply safe_weaken; [apply get_defaults_safe; exact Hp | auto].
-    - destruct (parse_object_arg_ok h0 a) eqn:Ea; [|discriminate].
-      eapply safe_weaken; [apply parse_object_safe; auto | auto].
+    - eapply safe_weaken; [apply parse_object_safe; [exact Hp | apply Hpo; reflexivity] | auto].
     - eapply safe_weaken; [apply parse_string_safe; exact Hp | auto].
     - unfold parse_path, chdir_region. eapply safe_weaken; [apply safe_bracket, safe_bracket, parse_string_safe; exact Hp | auto].
-    - eapply safe_bind; [apply validate_safe; right; auto|]. intros _ _. apply safe_ret. exact I.
-    - eapply safe_bind; [apply dump_safe; right; auto|]. intros _ _. apply safe_ret. exact I.
-    - eapply safe_bind; [apply save_safe; right; auto|]. intros _ _. apply safe_ret. exact I.
-    - eapply safe_weaken; [apply merge_safe; right; auto | auto].
-    - eapply safe_weaken; [apply strip_unknown_safe; right; auto | auto].
-    - eapply safe_weaken; [apply instantiate_safe; right; auto | auto].
+    - eapply safe_bind; [apply validate_safe; auto|]. intros _ _. apply safe_ret. exact I.
+    - eapply safe_bind; [apply dump_safe; auto|]. intros _ _. apply safe_ret. exact I.
+    - eapply safe_bind; [apply save_safe; auto|]. intros _ _. apply safe_ret. exact I.
+    - eapply safe_weaken; [apply merge_safe; auto | auto].
+    - eapply safe_weaken; [apply strip_unknown_safe; auto | auto].
+    - eapply safe_weaken; [apply instantiate_safe; auto | auto].
   Qed.
 
   Lemma get_defaults_fresh_in_section p g :
-    parser_flat n p = true ->
-    match get_defaults p (mkst h0 g) with
+    okp p ->
+    match get_defaults fx p (mkst h0 g) with
     | Ok r s' => refs_ge n r = true /\ inv (s_h s')
     | Err _ _ => True
     end.
   Proof.
     intro Hp. pose proof (get_defaults_safe p Hp (mkst h0 g) inv_h0) as H.
-    destruct (get_defaults p (mkst h0 g)); intuition.
+    destruct (get_defaults fx p (mkst h0 g)); intuition.
   Qed.
 End Frame.
 
@@ -677,44 +757,85 @@ Qed.
 
 (* frame: every object that existed before the call is, after the call, exactly what it was —
    whether the call returned or raised (or the model ran out of fuel). *)
+Lemma frame_gen :
+  forall (fx : bool) (p : parser) (h0 : heap) (o : op) (g : globals),
+    (fx = false -> guard p h0 o = true) ->
+    firstn (length h0) (s_h (out_st (run_op_gen fx p o (mkst h0 g)))) = h0.
+Proof.
+  intros fx p h0 o g G.
+  assert (Hf : fx = false -> heap_flat h0 = true) by (intro E; exact (guard_heap_flat _ _ _ (G E))).
+  pose proof (run_op_safe h0 fx Hf p o G (mkst h0 g) (inv_h0 h0)) as H. simpl in H.
+  destruct (run_op_gen fx p o (mkst h0 g)) as [a s'|k s']; simpl; [destruct H as [[_ [H _]] _] | destruct H as [_ [H _]]]; exact H.
+Qed.
+
 Theorem frame_all :
   forall (p : parser) (h0 : heap) (o : op) (g : globals),
     guard p h0 o = true ->
     firstn (length h0) (s_h (out_st (run_op p o (mkst h0 g)))) = h0.
+Proof. intros p h0 o g G. apply (frame_gen false). intros _. exact G. Qed.
+
+(* the tree with both patches: no guard at all *)
+Theorem frame_fixed :
+  forall (p : parser) (h0 : heap) (o : op) (g : globals),
+    firstn (length h0) (s_h (out_st (run_op_fixed p o (mkst h0 g)))) = h0.
+Proof. intros p h0 o g. apply (frame_gen true). discriminate. Qed.
+
+Lemma nth_frame (h0 h : heap) l c : firstn (length h0) h = h0 -> nth_error h0 l = Some c -> nth_error h l = Some c.
 Proof.
-  intros p h0 o g G. pose proof (guard_heap_flat _ _ _ G) as Hf.
-  pose proof (run_op_safe h0 Hf p o G (mkst h0 g) (inv_h0 h0)) as H. simpl in H.
-  destruct (run_op p o (mkst h0 g)) as [a s'|k s']; simpl; [destruct H as [[_ [H _]] _] | destruct H as [_ [H _]]]; exact H.
+  intros H E. assert (Hl : l < length h0) by (apply nth_error_Some; congruence).
+  rewrite <- (nth_firstn_lt (length h0) l _ Hl). rewrite H. exact E.
 Qed.
 
 Corollary frame_loc :
   forall (p : parser) (h0 : heap) (o : op) (g : globals) (l : nat) (c : cell),
     guard p h0 o = true -> nth_error h0 l = Some c ->
     nth_error (s_h (out_st (run_op p o (mkst h0 g)))) l = Some c.
-Proof.
-  intros p h0 o g l c G E. pose proof (frame_all p h0 o g G) as H.
-  assert (Hl : l < length h0) by (apply nth_error_Some; congruence).
-  rewrite <- (nth_firstn_lt (length h0) l _ Hl). rewrite H. exact E.
-Qed.
+Proof. intros p h0 o g l c G E. eapply nth_frame; [apply frame_all; exact G | exact E]. Qed.
+
+Corollary frame_fixed_loc :
+  forall (p : parser) (h0 : heap) (o : op) (g : globals) (l : nat) (c : cell),
+    nth_error h0 l = Some c ->
+    nth_error (s_h (out_st (run_op_fixed p o (mkst h0 g)))) l = Some c.
+Proof. intros p h0 o g l c E. eapply nth_frame; [apply frame_fixed | exact E]. Qed.
 
 (* get_defaults hands out a tree that shares no container with the declared defaults (or anything
    else that existed), and leaves the declared defaults as they were: calling it twice gives two
    separate trees. *)
-Theorem defaults_untouched_thm :
-  forall (p : parser) (h0 : heap) (g : globals),
-    guard p h0 OGetDefaults = true ->
-    match get_defaults p (mkst h0 g) with
+Lemma defaults_untouched_gen :
+  forall (fx : bool) (p : parser) (h0 : heap) (g : globals),
+    (fx = false -> guard p h0 OGetDefaults = true) ->
+    match get_defaults fx p (mkst h0 g) with
     | Ok r s' => refs_ge (length h0) r = true /\ firstn (length h0) (s_h s') = h0
     | Err _ s' => firstn (length h0) (s_h s') = h0
     end.
 Proof.
-  intros p h0 g G. pose proof (guard_heap_flat _ _ _ G) as Hf.
-  pose proof (frame_all p h0 OGetDefaults g G) as Hfr. simpl in Hfr.
-  assert (Hp : parser_flat (length h0) p = true).
-  { unfold guard, guard_class in G. simpl in G. destruct (parser_flat (length h0) p); [reflexivity | discriminate]. }
-  pose proof (get_defaults_fresh_in_section h0 Hf p g Hp) as H.
-  destruct (get_defaults p (mkst h0 g)); simpl in *; intuition.
+  intros fx p h0 g G.
+  assert (Hf : fx = false -> heap_flat h0 = true) by (intro E; exact (guard_heap_flat _ _ _ (G E))).
+  pose proof (frame_gen fx p h0 OGetDefaults g G) as Hfr. simpl in Hfr.
+  assert (Hp : okp h0 fx p).
+  { destruct fx; [apply okp_fixed; reflexivity|]. apply okp_flat.
+    specialize (G eq_refl). unfold guard, guard_class in G. simpl in G.
+    destruct (parser_flat (length h0) p); [reflexivity | discriminate]. }
+  pose proof (get_defaults_fresh_in_section h0 fx Hf p g Hp) as H.
+  destruct (get_defaults fx p (mkst h0 g)); simpl in *; intuition.
 Qed.
+
+Theorem defaults_untouched_thm :
+  forall (p : parser) (h0 : heap) (g : globals),
+    guard p h0 OGetDefaults = true ->
+    match get_defaults false p (mkst h0 g) with
+    | Ok r s' => refs_ge (length h0) r = true /\ firstn (length h0) (s_h s') = h0
+    | Err _ s' => firstn (length h0) (s_h s') = h0
+    end.
+Proof. intros p h0 g G. apply (defaults_untouched_gen false). intros _. exact G. Qed.
+
+Theorem defaults_untouched_fixed :
+  forall (p : parser) (h0 : heap) (g : globals),
+    match get_defaults true p (mkst h0 g) with
+    | Ok r s' => refs_ge (length h0) r = true /\ firstn (length h0) (s_h s') = h0
+    | Err _ s' => firstn (length h0) (s_h s') = h0
+    end.
+Proof. intros p h0 g. apply (defaults_untouched_gen true). discriminate. Qed.
 
 (* ================================================================================================
    brackets_restore: globals after = globals before, for every operation and every failure point
@@ -767,42 +888,48 @@ Proof. unfold check_value_key. rst. Qed.
 Lemma apply_actions_restores p b c : restores (apply_actions p b c).
 Proof. unfold apply_actions. rst. Qed.
 #[global] Hint Resolve apply_actions_restores : rstdb.
-Lemma get_defaults_restores p : restores (get_defaults p).
+Lemma get_defaults_restores fx p : restores (get_defaults fx p).
 Proof. unfold get_defaults. rst. Qed.
 #[global] Hint Resolve get_defaults_restores : rstdb.
-Lemma merge_restores a b : restores (merge_config a b).
+Lemma merge_restores fx a b : restores (merge_config fx a b).
 Proof. unfold merge_config. rst. Qed.
 #[global] Hint Resolve merge_restores : rstdb.
-Lemma validate_restores p c : restores (validate p c).
+Lemma validate_restores fx p c : restores (validate fx p c).
 Proof. unfold validate. rst. Qed.
 #[global] Hint Resolve validate_restores : rstdb.
-Lemma parse_common_restores p c : restores (parse_common p c).
+Lemma parse_common_restores fx p c : restores (parse_common fx p c).
 Proof. unfold parse_common. rst. Qed.
 #[global] Hint Resolve parse_common_restores : rstdb.
-Lemma parse_object_restores p a : restores (parse_object p a).
-Proof. unfold parse_object. rst. Qed.
-Lemma parse_string_restores p cs r : restores (parse_string p cs r).
+Lemma parse_object_restores fx p a : restores (parse_object fx p a).
+Proof. unfold parse_object, parse_object_tail, ns_of_arg. rst. Qed.
+Lemma parse_string_restores fx p cs r : restores (parse_string fx p cs r).
 Proof. unfold parse_string. rst. Qed.
 #[global] Hint Resolve parse_object_restores parse_string_restores : rstdb.
 Lemma dump_cleanup_restores p sv c : restores (dump_cleanup p sv c).
 Proof. unfold dump_cleanup. rst. Qed.
 #[global] Hint Resolve dump_cleanup_restores : rstdb.
-Lemma dump_restores p sv c : restores (dump p sv c).
+Lemma dump_restores fx p sv c : restores (dump fx p sv c).
 Proof. unfold dump. rst. Qed.
 #[global] Hint Resolve dump_restores : rstdb.
-Lemma save_restores p ex c : restores (save p ex c).
+Lemma save_restores fx p ex c : restores (save fx p ex c).
 Proof. unfold save, chdir_region. rst. Qed.
-Lemma strip_unknown_restores p c : restores (strip_unknown p c).
+Lemma strip_unknown_restores fx p c : restores (strip_unknown fx p c).
 Proof. unfold strip_unknown. rst. Qed.
-Lemma instantiate_restores p c : restores (instantiate p c).
+Lemma instantiate_restores fx p c : restores (instantiate fx p c).
 Proof. unfold instantiate. rst. Qed.
 #[global] Hint Resolve save_restores strip_unknown_restores instantiate_restores : rstdb.
 
+Lemma brackets_restore_gen :
+  forall (fx : bool) (p : parser) (o : op) (s : st) (x : nat), s_g (out_st (run_op_gen fx p o s)) x = s_g s x.
+Proof.
+  intros fx p o. change (restores (run_op_gen fx p o)). destruct o; simpl; unfold parse_path, chdir_region; rst.
+Qed.
 Theorem brackets_restore_thm :
   forall (p : parser) (o : op) (s : st) (x : nat), s_g (out_st (run_op p o s)) x = s_g s x.
-Proof.
-  intros p o. change (restores (run_op p o)). destruct o; simpl; unfold parse_path, chdir_region; rst.
-Qed.
+Proof. exact (brackets_restore_gen false). Qed.
+Theorem brackets_restore_fixed :
+  forall (p : parser) (o : op) (s : st) (x : nat), s_g (out_st (run_op_fixed p o s)) x = s_g s x.
+Proof. exact (brackets_restore_gen true). Qed.
 
 (* a region WITHOUT the finally (the value is put back only on the normal path) does not restore:
    this is what the theorem rules out for the bracketed code *)
